@@ -569,9 +569,17 @@ func raceWorkload(c *common, w *lineWriter, prepareOverlap bool, only string) {
 			}
 			run.Extra = map[string]any{"cancel_after_ms": o.cancelAfterMs, "hang": o.hang, "steps": nSteps}
 		case "overlap", "overlap-cancel":
-			g := genOpts{maxSteps: 2 + cr.intn(3), tags: cr.chance(1, 3), failOutputs: true, enabled: cr.chance(1, 3),
+			// tagged members (one-of / or-disabled / optional expression objects live in the prepared workflow and are shared by
+			// the overlapping runs) in two cases out of three
+			g := genOpts{maxSteps: 2 + cr.intn(3), tags: cr.chance(2, 3), failOutputs: true, enabled: cr.chance(1, 2),
 				stopIf: cr.chance(1, 3), waitFor: cr.chance(1, 2)}
 			wf := genWorkflow(cr, g)
+			if g.tags && cr.chance(2, 3) {
+				// make sure a one-of / or-disabled expression is there
+				for try := 0; try < 8 && !strings.Contains(wf.yaml(nil, nil), "!oneof") && !strings.Contains(wf.yaml(nil, nil), "!ordisabled"); try++ {
+					wf = genWorkflow(cr, g)
+				}
+			}
 			beh := genBehaviours(cr, wf, engineOpts{cancelAfterMs: -1})
 			for _, fl := range wf.InputFields {
 				if fl.Name == "flag" {
@@ -609,6 +617,19 @@ func raceWorkload(c *common, w *lineWriter, prepareOverlap bool, only string) {
 				cancels[0] = cr.intn(40)
 				if cr.chance(1, 4) {
 					cancels[0] = 0 // close right after the foreach step was started
+				}
+				if cr.chance(1, 2) {
+					// closed while some items run and others are still queued: many more items than slots, items that
+					// take a while, and the cancel while the first ones run (their sub-workflows then end with an error)
+					n = 5 + cr.intn(6)
+					items = make([]string, n)
+					for j := range items {
+						items[j] = fmt.Sprintf(`{"s": "i%d"}`, j)
+					}
+					par = 1 + cr.intn(2)
+					text = fmt.Sprintf(raceForeachMain, "["+strings.Join(items, ", ")+"]", par)
+					beh["item"] = Behaviour{Outcome: "success", DelayMs: 15 + cr.intn(20)}
+					cancels[0] = 8 + cr.intn(15)
 				}
 			}
 			runPrepared(text, map[string][]byte{"sub.yaml": []byte(raceForeachSub)}, beh, input, 1, cancels, &run)
